@@ -155,6 +155,14 @@ def St.init : St :=
 def memAccesses (ins : Instr) : List (Nat × Kind) :=
   ins.reads.map (·, Kind.read) ++ ins.writes.map (·, Kind.write) ++ ins.captures.map (·, Kind.capture)
 
+/-- graph.rs:282-340: what the handler's `matching_frames` makes an RF-control instruction do to the frame
+queues: every used frame is written (`Using`), then every blocked frame is read (`Blocking`); nothing for
+other roles or for `matching_frames = None` -/
+def frameAccesses (ins : Instr) : List (Nat × Kind) :=
+  match ins.role, ins.frames with
+  | .rf, some fr => fr.1.map (·, Kind.write) ++ fr.2.map (·, Kind.read)
+  | _, _ => []
+
 /-- graph.rs:229-245: record every access of the instruction, collecting the dependencies -/
 def recordAll (m : QMap) (n : Node) : List (Nat × Kind) → QMap × List Dep
   | [] => (m, [])
@@ -297,5 +305,147 @@ def isStable : Label → Bool
   | .stable => true
   | _ => false
 def anyLabel : Label → Bool := fun _ => true
+
+/-! ### C25: schedules.  Times are integers (the harness uses dyadic f64 values and sends them as exact
+multiples of 2⁻¹⁰ s; floating-point rounding is the declared partial part). -/
+
+/-- what `instruction_duration_seconds` (schedule.rs:181-267) looks at -/
+inductive DurDesc where
+  /-- PULSE / CAPTURE: `samples` = length of the `DEFWAVEFORM` matrix if the waveform is defined in the program;
+  the invocation's `duration`, `pad_left`, `pad_right` parameters (`to_real`, `none` if absent or not a literal);
+  `rates` = `none` if `matching_frames` is `None`, else the SAMPLE-RATEs (Hz) of the used frames that have a real one -/
+  | waveform (samples : Option Nat) (duration padLeft padRight : Option Int) (rates : Option (List Int))
+  /-- DELAY / RAW-CAPTURE: the duration expression's `to_real` -/
+  | literal (d : Option Int)
+  /-- FENCE, SET-*, SHIFT-*, SWAP-PHASES -/
+  | zero
+  /-- everything else -/
+  | unknown
+  deriving Repr, Inhabited, DecidableEq
+
+/-- time units per second on the wire -/
+def unitsPerSecond : Int := 1024
+
+/-- `itertools::all_equal_value` -/
+def allEqualValue : List Int → Option Int
+  | [] => none
+  | x :: xs => if xs.all (· = x) then some x else none
+
+/-- `instruction_duration_seconds` / `waveform_duration_seconds` (schedule.rs:181-267) -/
+def instructionDuration : DurDesc → Option Int
+  | .waveform (some n) _ _ _ rates =>
+    match rates.bind allEqualValue with
+    | some r => some ((n : Int) * unitsPerSecond / r)
+    | none => none
+  | .waveform none d pl pr _ =>
+    match d with
+    | some d => some (d + pl.getD 0 + pr.getD 0)
+    | none => none
+  | .literal d => d
+  | .zero => some 0
+  | .unknown => none
+
+structure SItem where
+  index : Nat
+  start : Int
+  dur : Int
+  deriving Repr, Inhabited, DecidableEq
+
+def SItem.stop (x : SItem) : Int := x.start + x.dur
+
+inductive SchedOutcome where
+  | ok (items : List SItem) (duration : Int)
+  | unknownDuration
+  | invalidGraph
+  /-- `unreachable!()` at schedule.rs:331: a `Scheduled` edge out of the block end -/
+  | crash
+  deriving Repr, Inhabited, DecidableEq
+
+/-- end times of the `Scheduled` predecessors of `v` (schedule.rs:317-338); `ends` maps instruction index to end time -/
+def predEnds (es : List Edge) (ends : List (Nat × Int)) (v : Node) : List Edge → Option (Option (List Int))
+  | [] => some (some [])
+  | e :: rest =>
+    if e.dst = v ∧ e.label = .scheduled then
+      match e.src with
+      | .start => (predEnds es ends v rest).map (·.map (0 :: ·))
+      | .instr p =>
+        match ends.lookup p with
+        | some t => (predEnds es ends v rest).map (·.map (t :: ·))
+        | none => some none            -- InvalidDependencyGraph
+      | .stop => none                  -- unreachable!()
+    else predEnds es ends v rest
+
+def maxFrom (z : Int) (xs : List Int) : Int := xs.foldl (fun acc el => if el > acc then el else acc) z
+
+/-- the loop of `ScheduledBasicBlock::as_schedule` (schedule.rs:304-359) over the nodes in visiting order -/
+def scheduleLoop (L : Nat) (es : List Edge) (dur : Nat → Option Int) :
+    List Node → List (Nat × Int) → List SItem → Int → SchedOutcome
+  | [], _, items, D => .ok items.reverse D
+  | .instr i :: rest, ends, items, D =>
+    if i ≥ L then .invalidGraph else
+    match dur i with
+    | none => .unknownDuration
+    | some d =>
+      match predEnds es ends (.instr i) es with
+      | none => .crash
+      | some none => .invalidGraph
+      | some (some xs) =>
+        let s := maxFrom 0 xs
+        let e := s + d
+        scheduleLoop L es dur rest ((i, e) :: ends) (⟨i, s, d⟩ :: items) (if D < e then e else D)
+  | _ :: rest, ends, items, D => scheduleLoop L es dur rest ends items D
+
+/-- `ScheduledBasicBlock::as_schedule` (schedule.rs:285-362).  `order` is the order in which petgraph's `Topo`
+yields the nodes; the driver uses the position order (a topological order by C22) and C25's theorems hold for
+every order compatible with the `Scheduled` edges. -/
+def asSchedule (L : Nat) (order : List Node) (es : List Edge) (dur : Nat → Option Int) : SchedOutcome :=
+  scheduleLoop L es dur order [] [] 0
+
+/-- `TimeSpan::union` (schedule.rs:151-170) on (start, duration) pairs -/
+def spanUnion (a b : Int × Int) : Int × Int :=
+  let start := if b.1 < a.1 then b.1 else a.1
+  let aEnd := a.1 + a.2
+  let bEnd := b.1 + b.2
+  let stop := if aEnd < bEnd then bEnd else aEnd
+  (start, stop - start)
+
+/-- the `BTreeMap::range(..=idx).next_back()` lookup of control_flow_graph.rs:282-286 on the list of
+`(first expanded index, source index)` insertions (later insertions overwrite equal keys) -/
+def sourceOf (m : List (Nat × Nat)) (idx : Nat) : Option Nat :=
+  (m.foldl (fun best kv =>
+    if kv.1 ≤ idx then
+      match best with
+      | some b => if b.1 ≤ kv.1 then some kv else some b
+      | none => some kv
+    else best) (none : Option (Nat × Nat))).map (·.2)
+
+/-- control_flow_graph.rs:253-264: first expanded index of every source instruction -/
+def firstIndices : List Nat → Nat → Nat → List (Nat × Nat)
+  | [], _, _ => []
+  | len :: rest, s, acc => (acc, s) :: firstIndices rest (s + 1) (acc + len)
+
+/-- control_flow_graph.rs:278-295: fold the expanded schedule's items into spans per source instruction -/
+def foldSpans (m : List (Nat × Nat)) : List SItem → List (Nat × (Int × Int)) → List (Nat × (Int × Int))
+  | [], acc => acc
+  | it :: rest, acc =>
+    match sourceOf m it.index with
+    | none => foldSpans m rest acc
+    | some s =>
+      match acc.lookup s with
+      | some sp => foldSpans m rest (acc.map fun kv => if kv.1 = s then (s, spanUnion sp (it.start, it.dur)) else kv)
+      | none => foldSpans m rest (acc ++ [(s, (it.start, it.dur))])
+
+/-- `Schedule::from(items)` (schedule.rs:81-87): the duration is the latest end -/
+def scheduleFrom (items : List SItem) : Int := maxFrom 0 (items.map SItem.stop)
+
+/-- `BasicBlock::as_schedule` (control_flow_graph.rs:233-307) given, for every source instruction, the length of
+its calibration expansion, and the outcome of scheduling the expanded block -/
+def blockSchedule (lens : List Nat) (flat : SchedOutcome) : SchedOutcome :=
+  match flat with
+  | .ok items _ =>
+    let spans := foldSpans (firstIndices lens 0 0) items []
+    let its := spans.map fun kv => (⟨kv.1, kv.2.1, kv.2.2⟩ : SItem)
+    .ok its (scheduleFrom its)
+  | o => o
 
 end QV.Sched
